@@ -249,5 +249,7 @@ def check(ctx):
             if drops:
                 ctx.ob("C15.g", "result-not-flattened-away:%s" % M.short_name(fn.name), False, "%s in %s: an Err is dropped and the construct compiles to something else" % (drops, fn.name), fn.loc(bb))
     ctx.floor("C15.g", "calls inspected for error-discarding adaptors on the build path", n_calls, 300)
+    from . import adaptors
+    adaptors.analyze(ctx, ("C02.j", "C08.f"))   # a dropped element is a construct that is never converted, hence never rejected
     from .common import cache_foundation
     cache_foundation(ctx)
